@@ -743,6 +743,20 @@ def run_c06(ctx):
             else:
                 s["exec"] = [lst([{"k": "ivec", "v": list(range(n))}, ins("INTVECTOR.LOOP"), lst([ins("VERIF.PROBE"), ins("INTEGER.POP")]), I(99)])]
             cs.append({"id": "cutloop-%d-%s" % (k, loop), "pre": s, "acts": [{"a": "copy_to_code"}, {"a": "steps", "k": lim + 3}, {"a": "run_from_start"}]})
+    # a run that starts on a state an earlier program (or an earlier, cut-off run) has left: the counter already on INDEX is
+    # the loop's counter, the loop goes on from there and leaves no index behind
+    for k, idx in enumerate([[(0, 3)], [(2, 5)], [(0, 1)], [(4, 4)], [(1, 2), (0, 3)]]):
+        for loop in ("EXEC.LOOP", "CODE.LOOP", "CONT"):
+            s = gen.empty_state()
+            s["index"] = [{"cur": c, "dst": d} for c, d in idx]
+            body = lst([ins("INDEX.CURRENT"), ins("VERIF.PROBE")])
+            if loop == "EXEC.LOOP":
+                s["exec"] = [lst([ins("EXEC.LOOP"), body, I(99)])]
+            elif loop == "CODE.LOOP":
+                s["exec"] = [lst([ins("CODE.QUOTE"), body, ins("CODE.LOOP"), I(99)])]
+            else:      # the continuation a cut-off run leaves on EXEC
+                s["exec"] = [lst([ins("INDEX.INCREASE"), ins("EXEC.LOOP"), body]), I(99)]
+            cs.append({"id": "resumed-%d-%s" % (k, loop), "pre": s, "acts": [{"a": "copy_to_code"}, {"a": "steps", "k": 60}, {"a": "run_from_start"}]})
     # whole runs of loops that let the state grow by hundreds of items in total (never by more than a few per step), and of
     # loops over bodies of hundreds of points (one item each): the growth cap is about items gained in ONE step
     for k, n in enumerate((200, 700)):
@@ -795,6 +809,26 @@ def run_c07(ctx):
                 prog.append(a if a["k"] != "ins" else {"k": "int", "v": g.int()})
         s["exec"] = prog
         cases.append({"id": "names-%05d" % i, "pre": s, "acts": [{"a": "steps", "k": 80}]})
+    # names spelled like registered instructions (built by the host, by CODE.FROMNAME, or parsed before a registration):
+    # a name is a name whatever its text - unbound it lands on the NAME stack, bound its value is executed
+    inames = ["INTEGER.DUP", "NAME.POP", "CODE.DO", "EXEC.FLUSH", "BOOLEAN.NOT", "VERIF.EARLY", "a"]
+    toks2 = toks + [ins("CODE.FROMNAME"), ins("CODE.DO"), ins("CODE.DO*"), ins("CODE.POP"), ins("NAME.SWAP")]
+    for i in range(40 if q else 5000):
+        s = g.state(depth=2)
+        s["name"] = [g.r.choice(inames) for _ in range(g.r.randint(0, 3))]
+        for _ in range(g.r.randint(0, 2)):
+            s["bind"][g.r.choice(inames)] = g.item(g.r.randint(1, 3))
+        prog = []
+        for _ in range(g.r.randint(3, 20)):
+            k = g.r.random()
+            if k < 0.4:
+                prog.append({"k": "id", "v": g.r.choice(inames)})
+            elif k < 0.8:
+                prog.append(g.r.choice(toks2))
+            else:
+                prog.append({"k": "int", "v": g.int()})
+        s["exec"] = prog
+        cases.append({"id": "inames-%05d" % i, "pre": s, "acts": [{"a": "steps", "k": 60}]})
     run_events(ctx, "name_sequences", cases)
     # redefinition with values that differ but print alike (floats equal to three decimals, empty vectors of
     # different types, lists of those) and with values that are equal: the later definition must win
@@ -926,6 +960,17 @@ def run_c02(ctx):
         s["exec"] = [ins("VERIF.SLEEP") for _ in range(nsleep)]
         s["cfg"]["time_limit"] = tl
         cs.append({"id": "sleep-%03d" % i, "pre": s, "acts": [{"a": "copy_to_code"}, {"a": "steps", "k": nsleep + 2}, {"a": "run_from_start"}]})
+    # ... and user instructions that change the limits in the middle of a run: a run obeys the configuration of the state it is
+    # running on, step by step (VERIF.TIMEUP sets the time limit to 0; the single-step chain is not bound by time)
+    I = lambda v: {"k": "int", "v": v}
+    for i, (before, after) in enumerate([(3, 4), (1, 1), (0, 3), (6, 0), (2, 9)]):
+        for tl in (5000, 1, 60000):
+            s = gen.empty_state()
+            s["exec"] = [lst([I(k) for k in range(before)] + [ins("VERIF.TIMEUP")] + [I(100 + k) for k in range(after)] + [ins("INTEGER.+")] * min(after, 2))]
+            s["cfg"]["time_limit"] = tl
+            if tl == 1:      # (1 ms may be over before the instruction is reached: then the limit never TURNS 0 within the run)
+                s["exec"] = [ins("VERIF.TIMEUP")] + s["exec"]
+            cs.append({"id": "timeup-%02d-%d" % (i, tl), "pre": s, "acts": [{"a": "copy_to_code"}, {"a": "steps", "k": before + after + 6}, {"a": "run_from_start"}]})
     run_events(ctx, "time_limit", cs)
 
 
@@ -1013,6 +1058,16 @@ def run_c16(ctx):
     for k, n in enumerate((3, 100, 127, 128, 129, 130, 200, 300) if q else (1, 2, 3, 50, 100, 126, 127, 128, 129, 130, 131, 200, 255, 256, 257, 300, 400)):
         cs.append({"id": "deep-%04d" % k, "api": "stack", "elem": "item", "init": [{"k": "int", "v": 5}] * (k % 3),
                    "ops": [{"m": "deep_probe", "args": [n, 7]}, {"m": "size", "args": []}, {"m": "to_string", "args": []}]})
+    # an element whose printed form is empty (a name without text, built by the host) is still listed: it sits between two
+    # blanks, and a list holding it does not read like the list without it
+    nm = lambda t: {"k": "id", "v": t}
+    e3, e2 = lst([nm("B"), nm(""), nm("A")]), lst([nm("B"), nm("A")])
+    for k, init in enumerate(([nm("B"), nm(""), nm("A")], [nm("B"), nm(""), nm(""), nm("A")], [e3, {"k": "int", "v": 3}], [{"k": "int", "v": 3}, e3, e2],
+                              [lst([{"k": "int", "v": 1}, lst([nm("x"), nm(""), nm("y")]), {"k": "int", "v": 2}])])):
+        cs.append({"id": "emptyname-%d" % k, "api": "stack", "elem": "item", "init": init,
+                   "ops": [{"m": "to_string", "args": []}, {"m": "size", "args": []}, {"m": "equal_at", "args": [0, e2]}, {"m": "equal_at", "args": [0, e3]},
+                           {"m": "equal_at", "args": [1, e2]}, {"m": "equal_at", "args": [1, e3]}, {"m": "push", "args": [e2]}, {"m": "equal_at", "args": [0, e3]},
+                           {"m": "to_string", "args": []}]})
     run_events(ctx, "stack_histories", cs, spec="TraceApi")
 
 
@@ -1042,6 +1097,8 @@ def run_c17(ctx):
                 ops.append({"m": "flush", "args": []})
             elif k < 0.82:
                 ops.append({"m": g.r.choice(["get", "get_mut", "copy", "iter_skip", "iter_nth"]), "args": [g.r.randint(0, cap + 1)]})
+            elif k < 0.83:     # positions at the far end of usize (-1 = usize::MAX, -2 = usize::MAX - 1, -1000 = 2^32) and of i32
+                ops.append({"m": g.r.choice(["get", "get_mut", "copy"]), "args": [g.r.choice([-1, -2, -3, -1000, 2147483647, 2147483646])]})
             elif k < 0.86:
                 ops.append({"m": "iter_step", "args": [g.r.randint(1, cap + 1)]})
             else:
@@ -1277,6 +1334,12 @@ def run_c03(ctx):
         acts += [{"a": "add_instr", "name": nm}, {"a": "parse", "text": "( %s 2 ( x %s ) ) %s" % (nm, nm, nm)}, {"a": "steps", "k": 3}]
     cs.append({"id": "lateadd", "pre": pre, "acts": acts})
     run_events(ctx, "late_additions", cs)
+    # balanced texts nested deeper than an event can carry (and than any limit one might think of): the text the harness
+    # builds for ( n ( n-1 ( ... ( 1 7 ) ... ) ) ) is parsed into ONE item that prints as that text again - every level is there
+    cs = []
+    for n in ((300, 1023, 1024, 1025, 1100, 1500) if q else (1, 2, 100, 255, 256, 257, 511, 512, 513, 1000, 1023, 1024, 1025, 1026, 1100, 1500, 2000)):
+        cs.append({"id": "deeptext-%04d" % n, "pre": gen.empty_state(), "acts": [{"a": "roundtrip", "deep": n}]})
+    run_events(ctx, "deep_texts", cs)
 
 
 def run_c11(ctx):
@@ -1328,7 +1391,7 @@ def run_c11(ctx):
             w = g.r.choice(WS_CHARS)
             text = "( alpha ( beta gamma%s ) 7 ( %sdelta INTEGER.+ ) omega%s )" % (w, g.r.choice(WS_CHARS), g.r.choice(WS_CHARS))
         cs.append({"id": "srctree-%06d" % i, "pre": gen.empty_state(), "acts": [{"a": "parse", "text": text}, {"a": "roundtrip", "src": True}, {"a": "print"}]})
-    for n in ((60, 127, 128, 129, 200, 300, 511, 512, 513, 700) if q else (1, 2, 55, 56, 100, 126, 127, 128, 129, 130, 200, 255, 256, 257, 300, 500, 511, 512, 513, 1000, 1023, 1024, 1025, 2000)):
+    for n in ((60, 127, 128, 129, 200, 300, 511, 512, 513, 700, 1025, 1500) if q else (1, 2, 55, 56, 100, 126, 127, 128, 129, 130, 200, 255, 256, 257, 300, 500, 511, 512, 513, 1000, 1023, 1024, 1025, 2000)):
         cs.append({"id": "deeptree-%04d" % n, "pre": gen.empty_state(), "acts": [{"a": "roundtrip", "deep": n}]})
     run_events(ctx, "source_texts", cs)
     # every instruction next to every kind of atom (the printed neighbours of a token must not change how it reads)
@@ -1397,7 +1460,7 @@ def run_c12(ctx):
     draws = 8 if q else 120
     cs = []
     k = 0
-    for ilist in ([], ["INTEGER.+"], ["EXEC.CMD"], ["EXEC.CMD", "BOOLEAN.AND"], ctx.registry):
+    for ilist in ([], ["INTEGER.+"], ["EXEC.CMD"], ["CODE.RAND"], ["EXEC.CMD", "BOOLEAN.AND"], ctx.registry):
         for bound in ({}, {"a": {"k": "int", "v": 1}, "b": {"k": "bool", "v": True}, "c": {"k": "list", "v": []}},
                       {"x": {"k": "int", "v": 2}, "y": {"k": "int", "v": 3}, "zz": {"k": "list", "v": []}}, {"a": {"k": "int", "v": 1}, "q": {"k": "int", "v": 3}, "c": {"k": "list", "v": []}}):
             # (probabilities outside [0, 1] and NaN are configuration values like any other: only sizes and leaves are judged)
@@ -1419,6 +1482,10 @@ def run_c12(ctx):
                 for m in range(0, N + 1):
                     for _ in range(max(1, draws // 4)):
                         ops.append({"m": "random_code", "args": [ilist, m, sorted(bound), pzero]})
+                if len(ilist) < 3:       # ... and the same through the instruction CODE.RAND handed that list
+                    for m in list(range(0, N + 1)) + [25]:
+                        for _ in range(max(1, draws // 4)):
+                            ops.append({"m": "code_rand_instr", "args": [ilist, m, sorted(bound), pzero]})
                 cs.append({"id": "gencode-%03d" % k, "api": "gen", "state": st, "ops": ops}); k += 1
     ops = [{"m": "decompose", "args": [n]} for n in range(1, N + 1) for _ in range(draws)]
     cs.append({"id": "decompose", "api": "gen", "ops": ops})
@@ -1458,7 +1525,9 @@ def run_c13(ctx):
     N = 12 if q else 40
     draws = 5 if q else 200
     ops = []
-    sps = [0.0, 0.05, 0.12, 0.25, 0.5, 0.51, 0.75, 0.85, 1.0, -0.1, 1.5, float("nan"), float("inf"), -0.0]
+    sps = [0.0, 0.05, 0.12, 0.25, 0.5, 0.51, 0.75, 0.85, 1.0, -0.1, 1.5, float("nan"), float("inf"), -0.0,
+           # marginally outside / inside [0, 1]: the next floats beyond the ends, less than half a percent off
+           gen.b2f(gen.f2b(1.0) + 1), 1.004, 1.0049, 1.006, -0.004, -1e-38, -1e-45, gen.b2f(gen.f2b(1.0) - 1), 0.996, 0.004, 1e-38]
     for n in list(range(0, N + 1)) + [-1, -5, 100, 1000]:
         for sp in sps:
             for _ in range(draws if n <= N else 1):
@@ -1983,7 +2052,8 @@ PLANS = {
     "EXT": dict(run=run_ext),
     "C01": dict(run=run_c01, judge=dict(owns_crash=True), rule="a case = (program, initial state); non-trivial = the recorded step reached an instruction or unpacked a list"),
     "C02": dict(run=run_c02),
-    "C03": dict(run=run_c03),
+    # (stage deep_texts: "the same nesting" of a balanced text of any depth is the parser's part of the round trip)
+    "C03": dict(run=run_c03, judge=dict(extra_owner=lambda j, stage: stage == "deep_texts" and j.get("subj") == "roundtrip")),
     "C04": dict(run=run_c04),
     "C11": dict(run=run_c11),
     "C12": dict(run=run_c12, judge=dict(owns_crash=True)),
